@@ -108,6 +108,61 @@ def r15_1(ctx) -> None:
                     ctx.check(cm is not None and is_const(cm, True), "R15.1", fn, s.node, f"{fn.short} :: check_more of {norm(s.node)[:40]}",
                               "on JWE consumption check_header is not asked to enforce the algorithm-specific required parameters (check_more=True)",
                               "check_more=True", construct=f"check_more of {norm(s.node)[:60]}")
+    # ... also where the header check sits in a helper that the producing side shares (and that the clause above therefore skips): on the way to the
+    # recovery of a recipient's CEK the algorithm-specific required parameters have been enforced - by a check_header(..., check_more=True) in the
+    # function itself, or by a helper that makes that call on every path with `True` written there or handed in by this caller
+    dr = eng.prog.func("rfc7516.message:decrypt_recipient")
+
+    def enforces(h: FunctionInfo, known: Dict[str, bool], depth: int = 0) -> bool:
+        cfg_ = cfg_of(h)
+        strict = strict_nodes(h, known, depth)
+        return bool(strict) and cfg_.must_pass(cfg_.entry, cfg_.exit, strict)
+
+    def strict_nodes(h: FunctionInfo, known: Dict[str, bool], depth: int):
+        cfg_ = cfg_of(h)
+        out = []
+        for s_ in eng.cg.calls_in(h):
+            if not isinstance(s_.node, ast.Call) or not s_.callees or cfg_.node_of(s_.node) is None:
+                continue
+            if all(c in chk for c in s_.callees):
+                cm = None
+                for c in s_.callees:
+                    cm = cm or eng.cg.arg_for_param(s_, c, "check_more")
+                if cm is not None and (is_const(cm, True) or (isinstance(cm, ast.Name) and known.get(cm.id) is True)):
+                    out.append(cfg_.node_of(s_.node))
+            elif depth < 2 and len(s_.callees) == 1 and s_.callees[0].cls is None and s_.callees[0] is not dr:
+                c = s_.callees[0]
+                kn = {}
+                for p_ in c.params:
+                    a_ = eng.cg.arg_for_param(s_, c, p_)
+                    if a_ is not None and is_const(a_, True):
+                        kn[p_] = True
+                    elif a_ is not None and isinstance(a_, ast.Name) and known.get(a_.id) is True:
+                        kn[p_] = True
+                if enforces(c, kn, depth + 1):
+                    out.append(cfg_.node_of(s_.node))
+        return out
+    m = 0
+    for fn in sorted(jwe_consume, key=lambda f: f.qualname):
+        sites = [s_ for s_ in eng.cg.calls_in(fn) if isinstance(s_.node, ast.Call) and dr in s_.callees]
+        if not sites:
+            continue
+        cfg = cfg_of(fn)
+        strict = strict_nodes(fn, {}, 0)
+        for s_ in sites:
+            m += 1
+            D = cfg.node_of(s_.node)
+            loops = [l for l in cfg.nodes if l.kind == "loop" and any(x is s_.node for x in ast.walk(l.ast))]  # type: ignore[arg-type]
+            if loops:
+                L = loops[-1]
+                ok = bool(strict) and all(D not in cfg.reachable(s0, strict) or s0 in strict for s0 in succ_by_label(cfg, L, "iter"))
+            else:
+                ok = bool(strict) and D is not None and cfg.must_pass(cfg.entry, D, strict)
+            ctx.check(ok, "R15.1", fn, s_.node, f"{fn.short} :: required algorithm parameters before {norm(s_.node)[:40]}",
+                      "a recipient's CEK is recovered without check_header(..., check_more=True) having enforced the algorithm-specific required parameters of its header "
+                      "(the check sits in a helper that does not pass check_more on)", "check_header(headers, True) on every path to decrypt_recipient",
+                      construct=f"check_more before {norm(s_.node)[:50]}")
+    ctx.count("R15.1/strict", m, 1, "CEK recovery sites on the consuming side")
     ctx.count("R15.1", n, 10, "orchestration sites (get_alg gates + check_more)")
 
 
@@ -1044,6 +1099,49 @@ def r15_8(ctx) -> None:
     ctx.count("R15.8", n, 4, "ordered pairs of header positions merged by headers()")
 
 
+def r15_10(ctx) -> None:
+    """R15.10  "a header is accepted only if ... every registered parameter has the JSON type its registry entry demands ... otherwise the operation fails":
+    on the JWS producing side the key resolution may WRITE the header (a key picked from a set records its kid - over a `kid` member that is falsy,
+    whatever its type).  The header is therefore judged before the key is resolved: in every JWS function that does both, `check_header` dominates the
+    call that resolves the key."""
+    eng = ctx.eng
+    P = eng.prog
+    from .common import in_family
+    chk = _check_header_impls(eng)
+    gk = P.func("jwk:guess_key")
+    n = 0
+    for fn in P.all_functions():
+        if fn.name == "<module>" or not in_family(fn, "jws") or in_family(fn, "jwe"):
+            continue
+        cfg = None
+        csites = [s_ for s_ in eng.cg.calls_in(fn) if isinstance(s_.node, ast.Call) and s_.callees and all(c in chk for c in s_.callees)]
+        if not csites:
+            continue
+        res = []
+        for s_ in eng.cg.calls_in(fn):
+            if not isinstance(s_.node, ast.Call):
+                continue
+            if gk in s_.callees:
+                ur = eng.cg.arg_for_param(s_, gk, "use_random")
+                if ur is not None and not is_const(ur, False):
+                    res.append(s_)
+            elif isinstance(s_.node.func, ast.Name) and s_.node.func.id == "find_key" and len(s_.node.args) == 1 and "sign" in fn.name:
+                res.append(s_)
+        if not res:
+            continue
+        cfg = cfg_of(fn)
+        cn = [cfg.node_of(s_.node) for s_ in csites]
+        cn = [c for c in cn if c is not None]
+        for s_ in res:
+            n += 1
+            R = cfg.node_of(s_.node)
+            ok = R is not None and bool(cn) and cfg.must_pass(cfg.entry, R, cn)
+            ctx.check(ok, "R15.10", fn, s_.node, f"{fn.short} :: header judged before {norm(s_.node)[:40]}", f"`{norm(s_.node)[:50]}` may record a kid in the header before check_header "
+                      "has judged it: an ill-typed falsy `kid` is overwritten and the token is produced", "registry.check_header(...) before the key is resolved",
+                      construct=f"key resolution before check_header in {fn.short}")
+    ctx.count("R15.10", n, 2, "JWS producing sites that resolve a key after the header check")
+
+
 def r15_9(ctx) -> None:
     """R15.9  "no unregistered parameter is present": the set of admitted names in check_supported_header comes from the registry given by the
     caller alone - nothing the header under test says (its crit list, its own keys) can extend it."""
@@ -1080,6 +1178,7 @@ def run(ctx) -> None:
     ctx.guard_as("R15.6", r04_4)  # what check_header validates is the union of protected, shared unprotected and per-recipient members
     ctx.guard(r15_8)
     ctx.guard(r15_9)
+    ctx.guard(r15_10)
     ctx.guard(r15_1)
     ctx.guard(r15_2)
     ctx.guard(r15_3)
